@@ -383,6 +383,36 @@ def f3_last(F, R, M, sg, acc):
         else:
             R.abstain('F3', '%s:last-element' % sg.entry_fn['id'], 'no NEXT-flagged element sites recognised', site(sg, idx[0].node))
         return
+    # F3 (which element): the element whose NEXT is cleared is the last one written - selected by the same free-list
+    # index the element stores use (or by last_mut() of the table), never by arithmetic on the head index: descriptors of a
+    # chain are not contiguous once completions have reordered the free list
+    elem_idx = set()
+    for n, loc, v in fs:
+        if n not in clear:
+            for pp in loc[2]:
+                if pp[0] == 'idx':
+                    elem_idx.add(strip_conv(pp[1]))
+    def owner(nid):
+        c = sg.ctxs[sg.nodes[nid].ctx]
+        while c.parent is not None and not F.handwritten(c.fn):
+            c = sg.ctxs[c.parent]
+        return c.fn['id']
+    for n in clear:
+        loc = [x for x in fs if x[0] == n][0][1]
+        ixs = [strip_conv(pp[1]) for pp in loc[2] if pp[0] == 'idx']
+        if ixs:
+            ix = ixs[0]
+            arith = any(x[0] == 'bin' and x[1] not in ('BitAnd',) for x in subterms(ix))
+            ok = ix in elem_idx and not arith
+            R.check(ok, 'F3', '%s:last-element-index:%s' % (sg.entry_fn['id'], owner(n)), site(sg, n),
+                    'NEXT is cleared on the element indexed like the element stores (%s)' % fmt(ix)[:60],
+                    'NEXT is cleared on descriptor %s, which is %s the index the chain\'s elements were written at (%s): with a '
+                    'reordered free list this is not the last element of the chain' % (
+                        fmt(ix)[:80], 'computed arithmetically, not' if arith else 'not', ', '.join(sorted(fmt(e)[:40] for e in elem_idx))))
+        else:
+            via_last = any(x[0] == 'call' and x[2].rsplit('::', 1)[-1] in ('last_mut', 'last') for x in subterms(loc))
+            R.check(via_last, 'F3', '%s:last-element-index:%s' % (sg.entry_fn['id'], owner(n)), site(sg, n),
+                    'NEXT is cleared on last_mut() of the table', 'cannot relate the element whose NEXT is cleared (%s) to the last element written' % fmt(loc)[:100])
     for es in elem_shares:
         ok = sg.between_always(es, idx[0].node, clear)
         R.check(ok, 'F3', '%s:last-element:%s' % (sg.entry_fn['id'], sg.ctxs[sg.ctxs[sg.nodes[es].ctx].parent].fn['id']), site(sg, es),
